@@ -67,6 +67,13 @@ def run(ctx):
     for o in outs:
         r4_framing(ctx, prog, cg, summ, o)
     r6_error(ctx, prog, cg, summ)
+    # exactly one record per exec call: the action runs once per interposer call
+    for F in common.entry_points(prog):
+        mn, mx = summ.count_range(F, {ACTION})
+        chk.ob('R1', 'action-once-per-call[%s]' % F.name, mn == 1 and mx == 1, F.where(), F.name,
+               'one %s() call runs the log action between %s and %s times (e.g. by calling another wrapped exec '
+               'function by name): the exec is recorded %s' % (F.name, mn, mx, 'more than once' if mx != 1 else 'not at all'),
+               how='must-call/may-call path count of %s from %s = 1/1' % (ACTION, F.name))
     cg.require_resolved(within=set(cg.reachable(common.entry_points(prog))))
 
 
@@ -574,6 +581,27 @@ def devlog_framing(ctx, o, msg, path):
                             ok, detail = False, 'ident field %s is not the expansion of syslog_ident_format' % render(ident)
     chk.ob('R4', 'framing[%s]' % o.name, ok, o.where(), o.name, detail,
            how='"<%d>%.*s[%d]: %s" <- (facility|level, ident, getpid(), message), sent as one datagram to ' + path)
+    # the record buffer holds the whole record for every message length: size >= strlen(message) + max prefix
+    if ok:
+        from engine.linear import entails
+        c = bc[0]
+        env = LinEnv(o)
+        L = Lin.sym(('strlen', ('decl', msg), o.params[0]['name']))
+        size = env.lin(arg(c, 1))
+        # "<" pri(<=11) ">" ident(<= precision) "[" pid(<=11) "]: " + NUL
+        binds = fmt.variadic_bindings(c) or []
+        prec = [a for a, d, role in binds if role == 'prec']
+        pv = strip(prec[0]).get('v') if prec else None
+        if pv is None:
+            chk.ob('R4', 'no-truncation[%s]' % o.name, False, c.where(), o.name,
+                   'the ident field has no constant precision bound, the prefix length is unbounded')
+        else:
+            need = L + Lin.const(1 + 11 + 1 + pv + 1 + 11 + 3 + 1)
+            okk = size is not None and entails([L], size - need)
+            chk.ob('R4', 'no-truncation[%s]' % o.name, okk, c.where(), o.name,
+                   'the record buffer is %s bytes but a record needs up to %s: for long messages snprintf cuts the tail '
+                   'and the datagram is not the message byte for byte' % (size, need),
+                   how='buffer size %s >= %s for every message length' % (size, need))
 
 
 # ---------------------------------------------------------------------------------
